@@ -60,6 +60,19 @@ type C06ScopeInfo struct {
 	PlainUses     int // unprefixed uses
 	Decoys        int // decoy local groupings of spliced names
 	NameIsPrefix  int // uses of a grouping whose name is a prefix of the file, or contains one
+	// identity scopes (c06ident.go)
+	IdShape               string // shape of the import tables of the owner and its submodules
+	IdRefs                int    // identity references written inside groupings and at the sites
+	IdOwnRefs             int    // ... without prefix / under the file's own prefix
+	IdForeignRefs         int    // ... through an import prefix of the file
+	IdDifferRefs          int    // ... written in a submodule whose owner binds the prefix to ANOTHER module
+	IdSubOnlyRefs         int    // ... written in a submodule whose owner does not bind the prefix
+	IdOwnerRefsSubDiffers int    // ... written in the module, a submodule binding the prefix differently (or not)
+	IdTypedefRefs         int    // references made through a typedef (file level or local)
+	IdIdentityBases       int    // references made through an identity statement of the file with that base
+	IdInSubmodule         int    // defining modules whose identities live in a submodule
+	IdOwnDefined          int    // pool identities the using module m defines itself as well
+	IdCrossFileUses       int    // groupings using the grouping of another file of the module
 }
 
 func newC06(r *rand.Rand) *c06 {
